@@ -147,6 +147,9 @@ class PolarsAddMissingColumns(Contract):
             # give a text column a default)
             default = T.fresh_value(T.OneOf(None, T.Any, "some text"), f"default[{k}]")
             nullable = T.fresh_value(T.Bool, f"nullable[{k}]")
+            # a column may be declared WITHOUT a data type (`Column(default=1)`): the added column then holds the default as it is
+            if k in absent and cur().choose([("declared", None), ("no_dtype", None)], f"dtype[{k}]") == 1:
+                dt, tag = None, ("type-of-the-default", k)
             c.attrs.update(default=default, nullable=nullable, dtype=dt, name=k, required=(k != "k_opt"))
             c.attrs0.update(c.attrs)
             dict.__setitem__(cols, k, c)
@@ -189,7 +192,11 @@ class PolarsAddMissingColumns(Contract):
         if not isinstance(result, TypedFrame):
             return out
         for k in g["absent"]:
-            out[f"added_column_has_the_declared_dtype[{k}]"] = result.cols.get(k) == g["meta"][k][2]
+            tag = g["meta"][k][2]
+            if tag[0] == "type-of-the-default":
+                out[f"a_column_without_declared_dtype_is_added_as_its_default_is[{k}]"] = k in result.cols and (not isinstance(result.cols[k], tuple) or result.cols[k][0] != "declared-type-of")
+            else:
+                out[f"added_column_has_the_declared_dtype[{k}]"] = result.cols.get(k) == tag
         for k, t in g["frame"].cols.items():
             out[f"no_existing_column_is_lost[{k}]"] = k in result.cols
             out[f"existing_columns_keep_their_dtype[{k}]"] = result.cols.get(k) == t
